@@ -106,35 +106,25 @@ Section Sig.
   Qed.
 
   (* ---- threshold Schnorr verifier ------------------------------------------------------------- *)
-  Theorem nts_verify_iff_textbook y m c s : in_sub p q y -> bitlen (Z.abs s) <= bitlen q ->
+  Theorem nts_verify_iff_textbook y m c s : in_sub p q y ->
     nts_verify H G y m c s = Some (schnorr_textbook H G y m c s).
   Proof.
-    intros Hy Hs. pose proof Sp. pose proof Sq. pose proof Sg as Hg.
+    intros Hy. pose proof Sp. pose proof Sq. pose proof Sg as Hg.
     unfold nts_verify, schnorr_textbook. fold p q g.
+    destruct (Z.ltb_spec s 0), (Z.leb_spec 0 s); try lia; cbn [orb andb]; [reflexivity|].
+    destruct (Z.geb_spec s q), (Z.ltb_spec s q); try lia; cbn [orb andb]; [reflexivity|].
+    assert (Hs : bitlen (Z.abs s) <= bitlen q) by (apply bitlen_mono; lia).
     rewrite (fpowm_sub g s Hg Hs). rewrite (powm_signed_sub y c Hy).
     rewrite (sexp_inv y c Hy). do 3 f_equal.
     rewrite !sexp_pow. rewrite <- Zmult_mod. reflexivity.
   Qed.
 
-  (* the defect: an s longer than the precomputed table makes g^s evaluate to 0, and (H [m; 0], s) is accepted
-     for every message and every public key *)
-  Theorem nts_verify_oversize_accepts y m s : in_sub p q y -> 0 < s ->
-    bitlen q < bitlen s <= TMCG_MAX_FPOWM_T ->
-    nts_verify H G y m (H [m; 0]) s = Some true.
+  (* every s outside [0, q) is refused: in particular the oversize exponents for which the fixed-base power
+     evaluates to 0 (the forgery (H [m; 0], 2^|q|) accepted before fix c546d31) *)
+  Theorem nts_verify_out_of_range y m c s : s < 0 \/ q <= s -> nts_verify H G y m c s = Some false.
   Proof.
-    intros Hy Hs0 Hs. pose proof Sp. pose proof Sq.
-    unfold nts_verify. fold p q g. unfold fpowm. rewrite tbits_eq. rewrite Z.abs_eq by lia.
-    destruct (Z.gtb_spec (bitlen s) TMCG_MAX_FPOWM_T); [lia|].
-    destruct (Z.leb_spec (bitlen s) (bitlen q)); [lia|].
-    destruct (Z.ltb_spec s 0); [lia|].
-    rewrite (powm_signed_sub y _ Hy). rewrite (sexp_inv y _ Hy).
-    rewrite Z.mul_0_l, Zmod_0_l. now rewrite Z.eqb_refl.
-  Qed.
-
-  (* an s longer than TMCG_MAX_FPOWM_T bits: exception *)
-  Theorem nts_verify_huge_throws y m c s : TMCG_MAX_FPOWM_T < bitlen (Z.abs s) -> nts_verify H G y m c s = None.
-  Proof.
-    intros Hs. unfold nts_verify, fpowm. destruct (Z.gtb_spec (bitlen (Z.abs s)) TMCG_MAX_FPOWM_T); [reflexivity|lia].
+    intros R. unfold nts_verify. fold q.
+    destruct (Z.ltb_spec s 0), (Z.geb_spec s q); try lia; reflexivity.
   Qed.
 
   (* ---- threshold Schnorr signing algebra --------------------------------------------------------- *)
@@ -217,7 +207,10 @@ Section Sig.
     pose proof (combine_checked ys rs ss c Hys Hrs F L) as E. fold y r in E.
     assert (Hy : in_sub p q y) by now apply prodm_in_sub.
     assert (Hr : in_sub p q r) by now apply prodm_in_sub.
-    unfold schnorr_textbook. fold p q g. apply Z.eqb_eq. unfold c at 1, nts_challenge. do 2 f_equal.
+    unfold schnorr_textbook. fold p q g.
+    assert (Rs : 0 <= nts_combine q ss < q) by (rewrite nts_combine_spec; apply Z.mod_pos_bound; lia).
+    destruct (Z.leb_spec 0 (nts_combine q ss)); [|lia]. destruct (Z.ltb_spec (nts_combine q ss) q); [|lia]. cbn [andb].
+    apply Z.eqb_eq. unfold c at 1, nts_challenge. do 2 f_equal.
     rewrite nts_combine_spec. rewrite Zmod_mod.
     rewrite Zmult_mod. rewrite <- !sexp_pow. rewrite E.
     (* y^c r y^-c = r *)
